@@ -222,6 +222,14 @@ class WithExtra:
 
 
 @dataclass
+class WithExtra2:
+    """Extra data collected into (and extracted from) several fields at once."""
+    a: int
+    e1: Dict[str, Any] = field(default_factory=dict)
+    e2: Dict[str, Any] = field(default_factory=dict)
+
+
+@dataclass
 class WithDefaults:
     xs: List[int] = field(default_factory=list)
     m: Dict[str, List[int]] = field(default_factory=dict)
@@ -525,7 +533,7 @@ _t("annotated",
 _t("model",
    M1=M1, M2=M2, M3=M3, ListM1=List[M1], ListM2=List[M2], OptM1=Optional[M1], DictStrM1=Dict[str, M1],
    Inner=Inner, NT=NT, TD=TD, AT=AT, SnakeCase=SnakeCase, WithAny=WithAny, WithExtra=WithExtra,
-   WithDefaults=WithDefaults, DupA=DupA, DupB=DupB, DefF=DefF, DefB=DefB, KwModel=KwModel, StreamHolder=StreamHolder, ListNT=List[NT], SatModel=SatModel, SatOpt=SatOpt)
+   WithDefaults=WithDefaults, WithExtra2=WithExtra2, DupA=DupA, DupB=DupB, DefF=DefF, DefB=DefB, KwModel=KwModel, StreamHolder=StreamHolder, ListNT=List[NT], SatModel=SatModel, SatOpt=SatOpt)
 _t("generic",
    GInt=G[int], GBool=G[bool], GStr=G[str], GListInt=G[List[int]], PairIntStr=Pair[int, str],
    PairStrInt=Pair[str, int], PairBoolStr=Pair[bool, str], GBare=G, ListingA=ListingA, ListingB=pools_b.ListingB)
@@ -656,7 +664,7 @@ BATTERY: Dict[str, List[str]] = {
     "M2": ["m_ab", "m_aTb", "m_a", "m_bad", "dd_m_b", "m_legacy"], "M3": ["m_ab", "m_aTb", "m_a", "m_bad", "m_legacy"], "ListM1": ["lm"], "ListM2": ["lm"], "OptM1": ["m_ab", "m_bad"],
     "DictStrM1": ["dm"], "Inner": ["inner", "inner_neg", "inner_extra", "dd_inner", "inner_paths"], "NT": ["nt", "nt_tags"], "ListNT": ["lnt"],
     "TD": ["td", "td_a"], "AT": ["at", "at_a"], "SnakeCase": ["snake", "snake_camel", "dd_snake"], "WithAny": ["withany"],
-    "WithExtra": ["withextra", "withextra_plain"], "WithDefaults": ["withdefaults_empty", "withdefaults_full", "dd_wd"],
+    "WithExtra": ["withextra", "withextra_plain"], "WithExtra2": ["withextra", "withextra_plain"], "WithDefaults": ["withdefaults_empty", "withdefaults_full", "dd_wd"],
     "DupA": ["dup_x"], "DupB": ["dup_x"], "DefF": ["empty_d", "def_name"], "DefB": ["empty_d", "def_name"],
     "KwModel": ["kw", "m_a"], "SatModel": ["kw", "m_a"], "SatOpt": ["kw0", "kw"], "StreamHolder": ["stream", "stream_bad"],
     "GInt": ["g_v1", "g_vT", "g_vs"], "GBool": ["g_v1", "g_vT", "g_vTb"], "GStr": ["g_vs", "g_v1"], "GListInt": ["g_vl"],
@@ -741,6 +749,7 @@ OBJECTS: Dict[str, Any] = {
     "o_snake": lambda: SnakeCase("f", "l", 3),
     "o_withany": lambda: WithAny([1, [2]], {"k": [3]}, [[1], {"a": [2]}]),
     "o_withextra": lambda: WithExtra(1, {"zzz": [7], "yyy": {"k": [1]}}),
+    "o_withextra2": lambda: WithExtra2(1, {"zzz": [7]}, {"yyy": {"k": [1]}}),
     "o_withdefaults": lambda: WithDefaults(), "o_withdefaults_full": lambda: WithDefaults([1], {"k": [1]}, {1, 2}, (1, 2), [3]),
     "o_kw": lambda: KwModel(1, p=[1]), "o_sat": lambda: _sat(1, {"p": [1], "q": {"z": [2]}}),
     "o_satopt0": lambda: SatOpt(0, {"p": [1], "q": {"z": [2]}}), "o_satopt1": lambda: SatOpt(1, {"p": [1]}),
@@ -838,7 +847,7 @@ DUMP_BATTERY: Dict[str, List[str]] = {
     "AnnInt0": ["o_i1"], "AnnIntF": ["o_i1"], "AnnIntX": ["o_i1"], "AnnListInt1": ["o_l01"], "AnnListIntT": ["o_l01"],
     "M1": ["o_m1", "o_m1T"], "M2": ["o_m2"], "M3": ["o_m3"], "ListM1": ["o_lm1"], "ListM2": ["o_lm2"],
     "OptM1": ["o_m1", "o_none"], "DictStrM1": ["o_dm1"], "Inner": ["o_inner"], "NT": ["o_nt"], "ListNT": ["o_lnt"],
-    "TD": ["o_td"], "AT": ["o_at"], "SnakeCase": ["o_snake"], "WithAny": ["o_withany"], "WithExtra": ["o_withextra"],
+    "TD": ["o_td"], "AT": ["o_at"], "SnakeCase": ["o_snake"], "WithAny": ["o_withany"], "WithExtra": ["o_withextra"], "WithExtra2": ["o_withextra2"],
     "WithDefaults": ["o_withdefaults", "o_withdefaults_full"], "DupA": ["o_dupA"], "DupB": ["o_dupB"], "DefF": ["o_deff"], "DefB": ["o_defb"], "KwModel": ["o_kw"], "SatModel": ["o_sat"], "SatOpt": ["o_satopt0", "o_satopt1"], "StreamHolder": ["o_stream", "o_stream_faulty"],
     "GInt": ["o_gint", "o_gT"], "GBool": ["o_gT"], "GStr": ["o_gstr"], "GListInt": ["o_glist"], "GBare": ["o_gint"], "ListingA": ["o_listing_a"], "ListingB": ["o_listing_b"],
     "PairIntStr": ["o_pair_is", "o_pair_Ts"], "PairStrInt": ["o_pair_si"], "PairBoolStr": ["o_pair_Ts"],
@@ -872,11 +881,27 @@ CONVERTERS: Dict[str, Tuple[Any, Any, List[str]]] = {
     "CLink": (CSrc, CDst, ["o_csrc"]),
     "CTags": (CSrc, CDstTags, ["o_csrc"]),
     "CLinkStr": (CSrc, CDstS, ["o_csrc"]),
+    "ImplExtra": (CSrc, CDst, ["o_csrc"]),
+    "ImplTags": (CSrc, CDstTags, ["o_csrc"]),
     "Ann": (AnnSrc, AnnDst, ["o_annsrc"]),
     "AnnList": (Annotated[List[int], "m"], List[int], ["o_l01"]),
     "AnnDict": (Dict[str, List[int]], Annotated[Dict[str, List[int]], "m"], ["o_dAl"]),
     "M1Str": (M1, M1S, ["o_m1"]),
 }
+def _stub_clink(src: CSrc, c: int) -> CDst:
+    ...
+
+
+def _stub_tags(src: CSrc, tags: List[int], total: int = 0) -> CDstTags:
+    ...
+
+
+# converters made by impl_converter from a stub with extra parameters: name -> (stub, extra arguments factory)
+IMPL_STUBS: Dict[str, Any] = {
+    "ImplExtra": (_stub_clink, lambda: (5,)),
+    "ImplTags": (_stub_tags, lambda: ([1, 2],)),
+}
+
 CONV_RECIPES: Dict[str, Any] = {
     "plain": lambda: [],
     "link_title": lambda: [link(P[SrcOuter].name, P[DstRenamed].title)],
@@ -934,6 +959,7 @@ RECIPES: Dict[str, Any] = {
     "nm_omit_default": lambda: [name_mapping(omit_default=True)],
     "nm_extra_forbid": lambda: [name_mapping(Inner, extra_in=ExtraForbid())],
     "nm_extra_collect": lambda: [name_mapping(WithExtra, extra_in="extra", extra_out="extra"),
+                                 name_mapping(WithExtra2, extra_in=["e1", "e2"], extra_out=["e1", "e2"]),
                                  name_mapping(KwModel, extra_in=ExtraKwargs())],
     "nm_extra_forbid_all": lambda: [name_mapping(extra_in=ExtraForbid())],
     "chain_node_children": lambda: [loader(P[Outer1].node.children, _reverse, Chain.LAST)],
@@ -969,7 +995,7 @@ RECIPE_TYPES: Dict[str, List[str]] = {
     "scoped_int": ["M1", "M2", "ListM1", "int"], "scoped_node_value": ["Node", "Holder", "Outer1", "ListNode"],
     "scoped_linked_head": ["LinkedInt", "LinkedStr", "LinkedBool"], "enum_by_name": ["Color", "Shade", "LitColorR", "LitShade"],
     "flag_names": ["Perm"], "validator_inner": ["Inner", "Outer1", "Outer2"], "dumper_scoped": ["Node", "Holder", "ListNode"],
-    "nm_as_list": ["M1", "ListM1", "M2"], "nm_extra_collect": ["WithExtra", "KwModel"], "nm_extra_forbid": ["Inner", "Outer1"],
+    "nm_as_list": ["M1", "ListM1", "M2"], "nm_extra_collect": ["WithExtra", "KwModel", "WithExtra2"], "nm_extra_forbid": ["Inner", "Outer1"],
     "asis_m2": ["M2", "ListM2", "M1"], "unsupported_fix": ["Unsupported", "ListUnsupported", "CallableT"],
     "nm_snake_only": ["SnakeCase"], "nm_camel": ["SnakeCase", "M1"], "nm_camel_shared": ["SnakeCase", "RA", "RB"],
     "chain_int_last": ["int", "M1", "ListInt", "GInt"], "chain_int_shared": ["int", "M1", "ListInt"],
